@@ -29,6 +29,18 @@ LEVEL = "proof"
 
 MUTATION_DRILLS = [
  {
+  "mutation": "ShapeFormatter::Format without its option test (`if (!get_option(\"full_shape\")) return;` removed): the commit path widens printable ASCII whatever the option says",
+  "ran": "scratch worktree /var/tmp/wt-c03 at /repo HEAD + the mutation; committed check from a snapshot worktree: VERIF_REPO=/var/tmp/wt-c03 VERIF_CACHE=<scratch> bin/check C03 quick",
+  "exit": 1,
+  "printed": "VIOLATION property=C03 replay=replays/C03-quick-0.json (found_failing_input=true): Eng/ShapeFacts.v no longer checks (shape_facts_recognised = false) and the search finds e.g. schema synth_fluid: delivered efbcb7, preview immediately before was 57; synth_express: delivered efbcb6, expected confirmed + shown 56",
+ },
+ {
+  "mutation": "ShapeFormatter::Format: the all_of test reads `ch >= 0x7e` (a text of tildes only is kept narrow with full shape on) - behaviour changes only with the option on, i.e. outside the property's domain",
+  "ran": "same",
+  "exit": 1,
+  "printed": "VIOLATION property=C03 replay=replays/C03-quick-0.json no-failing-input-found: key proof:Properties_C03 (Eng/ShapeFacts.v line 35: shape_facts_recognised is false - the translator refuses the statement it does not know); no history inside the domain fails, as it should be",
+ },
+ {
   "mutation": "Session::OnCommit: commit_text_ = commit_text (assigns instead of appending)",
   "ran": "scratch worktree /var/tmp/wt-eng at /repo HEAD + the mutation; VERIF_REPO=/var/tmp/wt-eng VERIF_CACHE=/var/tmp/rime-verif-eng bin/check C03 quick",
   "exit": 1,
@@ -187,7 +199,8 @@ def run(ctx):
     ctx.assumptions += [
         "the *_total variants of the exactly-once theorems assume the translator hypothesis cands_fit (each candidate ends inside its segment), proved for the synthetic oracle translator",
         "full_shape off (formatters are the identity) and the schema switcher not open, as the property states; generators never "
-        "set full_shape and avoid the switcher hot keys",
+        "set full_shape and avoid the switcher hot keys; the oracle reads the full_shape flag reported before each call and does "
+        "not judge calls made while it is on (skipped_full_shape_on in the distribution)",
         "exactly_once is stated for histories in which no modelled call reaches an undefined C++ operation (not_crash); C01's "
         "totality theorem discharges this hypothesis",
         "the theorems cover the modelled engine core (synthetic schemas, one translator, no filters); the stock schemas' other "
@@ -347,7 +360,9 @@ MANIFEST = {
                  "observation",
     "text": "Properties_C03.v proves over the Eng model, for any configuration and any translator: (1) with full_shape off, in ANY "
             "state commit_composition appends exactly the commit preview get_context reported immediately before, leaves the session "
-            "not composing and returns whether text is pending (commit_is_preview); (2) selecting a candidate that covers the rest of "
+            "not composing and returns whether text is pending (commit_is_preview; in any state, option on or off, what is delivered is "
+            "ShapeFormatter::Format of that preview, and the model's formatter equals the statements of shape.cc as the translator reads "
+            "them, on all 256 byte values: commit_any_shape, shape_model_is_source); (2) selecting a candidate that covers the rest of "
             "the input (after Segment::Close the segment ends at |input|) makes the text to commit the text of the earlier segments "
             "followed by the candidate's text - delivered at once and composition ended under _auto_commit, otherwise reported as the "
             "new preview (select_covering_rest; its side condition |composition input| <= |input| is proved for every reachable state); "
